@@ -96,7 +96,9 @@ def construct_token_dictionary_and_frequency(token_sequence, token_dictionary=No
     index_list = [
         token_dictionary[token] for token in token_sequence if token in token_dictionary
     ]
-    token_counts = np.bincount(index_list).astype(np.float32)
+    # float64: the bounds they are compared with in prune_token_dictionary are float64
+    # quotients of the same integers (count == bound must compare equal for every total)
+    token_counts = np.bincount(index_list).astype(np.float64)
 
     token_frequency = token_counts / n_tokens
 
